@@ -24,7 +24,7 @@ from ..anchor import E, S
 from ..model import AnalysisError, ClassInfo, FunctionInfo
 from ..pitlib import analyse_masker, pit_layer_classes
 from ..sym import NONE, Term, mentions, show, subterms
-from ..util import (SELF, Inliner, arg, attr_classes, bind_args, callee, is_call, method_call,
+from ..util import (path_guards, SELF, Inliner, arg, attr_classes, bind_args, callee, is_call, method_call,
                     param_classes, paths, paths_split, returning, short, strip_calls, where)
 
 EXPLANATION = ('Static analysis of the PIT layer classes: zero-on-pruned-channel abstract domain '
@@ -652,6 +652,39 @@ def r01f(ctx, classes: List[ClassInfo]):
     ctx.floor('R01f', 'exported hyper-parameter getters', n, 10)
 
 
+def pad_guard_rule(ctx, rule: str):
+    """The causal-padding adjustment of an exported Conv1d is decided by the layer's padding MODE
+    only: it must also run when the searched receptive field leaves one tap (pad amount 0),
+    because the explicit ConstantPad1d in front of the layer then has to shrink to 0 -- a guard
+    on the searched kernel size / dilation / pad amount skips exactly the minimal-mask case and
+    the exported network returns longer sequences than the model it was searched from."""
+    repo = ctx.repo
+    n = 0
+    for ci in pit_layer_classes(repo):
+        exp = ci.methods.get('export')
+        if exp is None or layer_kind(ctx, ci) != 'Conv1d':
+            continue
+        sub = find_export_submodule(ctx, exp, ci)
+        bad = None
+        for p in returning(paths(repo, exp)):
+            for e in p.calls():
+                if not (callee(e.data[0]) or '').endswith('ConstantPad1d'):
+                    continue
+                n += 1
+                for a, v in path_guards(p, e):
+                    if mentions(a, lambda x: x[0] == 'attr' and x[1] == sub and
+                                x[2] in ('kernel_size_opt', 'dilation_opt', 'time_mask')):
+                        bad = (a, v, e.node)
+        ctx.ob(rule, f'{ci.name}.export adjusts the padding for every searched kernel size',
+               bad is None,
+               'the adjustment depends on the padding mode only' if bad is None else
+               f'the new padding is only created when {short(bad[0], 90)} is {bad[1]}: with the '
+               f'receptive field pruned to one tap the pad amount is 0, the adjustment is skipped '
+               f'and an explicit ConstantPad1d in front of the layer keeps its old width next to '
+               f'a one-tap convolution', where(exp, bad[2]) if bad else where(exp))
+    ctx.floor(rule, 'ConstantPad1d creation paths', n, 1)
+
+
 def r01j(ctx, classes: List[ClassInfo]):
     """The BatchNorm after a searchable layer: export re-creates it in exactly the
     configurations (fold_bn x bn present) in which forward applies ``self.bn``."""
@@ -713,6 +746,7 @@ def run(ctx):
     r01_export(ctx, classes)
     r01f(ctx, classes)
     r01j(ctx, classes)
+    pad_guard_rule(ctx, 'R01e')
     # R01h: masks line up across flatten / concat boundaries (shared with C09 R09c)
     from . import c09
     before = len(ctx.obligations)
